@@ -73,7 +73,7 @@ def _run_all(ctx, e, u, op, site, fails, outs):
             outs["exit"] = outs.get("exit", 0) + 1
             continue
         outcome, where, owner = c
-        if where == "unknown" and v == "plain":
+        if where == "unknown":     # no usable trace (plain build, or an in-process run that caught the signal): repeat in a forked ASan copy
             c2 = toolrun.locate(ctx, tool, args, stdin=stdin)
             if c2:
                 where, owner = c2[1], c2[2]
